@@ -22,6 +22,7 @@ pub mod pool;
 pub mod readbuf;
 pub mod smoke;
 pub mod sq;
+pub mod teardown;
 pub mod wake;
 
 /// What a case reports when it ends.
@@ -256,6 +257,7 @@ pub fn run(a: &Args) -> i32 {
         "encode" => run_comp(a, &mut encode::EncodeComp),
         "sq" => run_comp(a, &mut sq::SqComp),
         "blk" => run_comp(a, &mut blk::BlkComp),
+        "teardown" => run_comp(a, &mut teardown::TeardownComp),
         "wake" => run_comp(a, &mut wake::WakeComp),
         "bufs" => run_comp(a, &mut bufs::BufsComp),
         "composite" => run_comp(a, &mut composite::CompositeComp),
